@@ -44,6 +44,29 @@ theorem importRules_spec (known : String → Bool) (rules : List (SbmlRule α)) 
   rw [importRules_acc]
   simp
 
+/-- **rules are imported one by one**: what a document contributes is what its first part contributes followed by what
+the rest contributes — no rule's import depends on the rules before it (the defect repaired on this tree was exactly a
+carry-over between consecutive rules). -/
+theorem importRules_append (known : String → Bool) (r1 r2 : List (SbmlRule α)) :
+    (importRules known (r1 ++ r2)).assignments
+        = (importRules known r1).assignments ++ (importRules known r2).assignments
+    ∧ (importRules known (r1 ++ r2)).rateReactions
+        = (importRules known r1).rateReactions ++ (importRules known r2).rateReactions := by
+  simp only [(importRules_spec known _).1, (importRules_spec known _).2, List.filter_append, List.map_append]
+  exact ⟨trivial, trivial⟩
+
+/-- inserting, removing or moving rate rules (or algebraic rules, or rules for unknown variables) anywhere in the
+document leaves the imported assignments untouched, and vice versa. -/
+theorem assignments_only_from_assignment_rules (known : String → Bool) (rules rules' : List (SbmlRule α))
+    (h : rules.filter (isAssign known) = rules'.filter (isAssign known)) :
+    (importRules known rules).assignments = (importRules known rules').assignments := by
+  rw [(importRules_spec known rules).1, (importRules_spec known rules').1, h]
+
+theorem rateReactions_only_from_rate_rules (known : String → Bool) (rules rules' : List (SbmlRule α))
+    (h : rules.filter (isRate known) = rules'.filter (isRate known)) :
+    (importRules known rules).rateReactions = (importRules known rules').rateReactions := by
+  rw [(importRules_spec known rules).2, (importRules_spec known rules').2, h]
+
 /-- the number of reactions created for rate rules is the number of rate rules (none doubled, none lost). -/
 theorem rate_rule_once (known : String → Bool) (rules : List (SbmlRule α)) :
     (importRules known rules).rateReactions.length = (rules.filter (isRate known)).length := by
